@@ -170,6 +170,13 @@ def check_stack(ctx, case_seed):
     visible = fparams
     own_names = [x for d in decos for x in d[3] + d[4]]
     all_params = [sigs.shape_key(visible)] + [tuple((n, PK, None, None) for n in own_names)]
+    if rnd.random() < 0.3:
+        # a retrieval that fails half-way (one call from sigtools into outside code raises) comes
+        # first; its outcome is discarded, everything below must be unaffected by it
+        from . import w_fault
+        w['failed_retrieval_first'] = w_fault.failed_retrieval(
+            lambda: (inspect.signature if rnd.random() < 0.5 else sigtools.signature)(obj), rnd)
+        ctx.count('C13.failed_retrieval_first')
     try:
         s_sig = sigtools.signature(obj)
         i_sig = inspect.signature(obj)
@@ -295,8 +302,21 @@ def check_combination(ctx, case_seed):
         plists.append(ps)
         lines.append('def c%d(%s): return (%r, arg)' % (i, sigs.render(ps), 'c%d' % i))
     nest = k == 3 and rnd.random() < 0.5
+    member_deco = None
     if nest:
         lines.append('C = wrappers.Combination(wrappers.Combination(c0, c1), c2)')
+    elif k == 3 and rnd.random() < 0.5:
+        # a member that is itself a Combination *wrapped by a decorator* (functools.wraps copies the
+        # inner object's __dict__, its `functions` list included, onto the wrapper): it is one
+        # member, not something to splice in
+        member_deco = rnd.choice(('wraps', 'decorator'))
+        if member_deco == 'wraps':
+            lines += ['import functools', 'def mark(fn):', '    @functools.wraps(fn)',
+                      '    def marked(arg, *args, **kwargs): return ("marked", fn(arg, *args, **kwargs))', '    return marked']
+        else:
+            lines += ['@wrappers.decorator', 'def mark(fn, arg, *args, **kwargs): return ("marked", fn(arg, *args, **kwargs))']
+        lines.append('M = mark(wrappers.Combination(c0, c1))')
+        lines.append('C = wrappers.Combination(M, c2)')
     else:
         lines.append('C = wrappers.Combination(%s)' % ', '.join('c%d' % i for i in range(k)))
     src = '\n'.join(lines) + '\n'
@@ -305,6 +325,14 @@ def check_combination(ctx, case_seed):
     g = sigs.compile_module(src, tag='vcomb')
     C = g['C']
     fs = [g['c%d' % i] for i in range(k)]
+    if member_deco:
+        ctx.count('C13.combination_member_decorated')
+        inner_two = fs[:2]
+        def first_member(arg, *a, **kw):
+            for f in inner_two:
+                arg = f(arg, *a, **kw)
+            return ('marked', arg)
+        fs = [first_member, fs[2]]
     def ref(arg, *a, **kw):
         for f in fs:
             arg = f(arg, *a, **kw)
@@ -357,7 +385,10 @@ def check_combination(ctx, case_seed):
             V(ctx, 'combination-accepted-call-raises', 'a non-colliding call accepted by the Combination signature raises TypeError',
               dict(w, signature=show(s_sig), shape=[n, sorted(kws)]), rp)
             break
-    if list(C.functions) != fs:
+    if member_deco:
+        if list(C.functions) != [g['M'], g['c2']]:
+            V(ctx, 'combination-splices-decorated-member', 'a decorated Combination used as a member was spliced in instead of being kept as one member', w, rp)
+    elif list(C.functions) != fs:
         V(ctx, 'combination-flattening', 'nested Combinations are not flattened in order', w, rp)
 
 
